@@ -3,15 +3,47 @@ package mesh
 import (
 	"net"
 	"net/http"
+	"sync"
+	"sync/atomic"
 
 	"golang.org/x/net/http2"
 )
 
+// H2ClientPreface is the connection preface every HTTP/2 client must send first (RFC 7540 §3.5).
+const H2ClientPreface = "PRI * HTTP/2.0\r\n\r\nSM\r\n\r\n"
+
+// prefaceConn records the first bytes a peer sent.
+type prefaceConn struct {
+	net.Conn
+	mu    sync.Mutex
+	first []byte
+	bad   *int32
+	done  bool
+}
+
+func (p *prefaceConn) Read(b []byte) (int, error) {
+	n, err := p.Conn.Read(b)
+	p.mu.Lock()
+	if !p.done {
+		p.first = append(p.first, b[:n]...)
+		if len(p.first) >= len(H2ClientPreface) || err != nil {
+			p.done = true
+			if len(p.first) > 0 && (len(p.first) < len(H2ClientPreface) || string(p.first[:len(H2ClientPreface)]) != H2ClientPreface) {
+				atomic.AddInt32(p.bad, 1)
+			}
+		}
+	}
+	p.mu.Unlock()
+	return n, err
+}
+
 // NewH2Server is a prior-knowledge h2c upstream (x/net server) whose handler the harness owns
 // completely (it can suppress the automatic Date / Content-Type headers by setting them to nil).
-func NewH2Server(h http.Handler) *RawServer {
+// badPreface counts the connections whose first bytes were not the client connection preface.
+func NewH2Server(h http.Handler) (srv *RawServer, badPreface *int32) {
+	badPreface = new(int32)
 	return NewRawServer(func(id int, c net.Conn) {
 		srv := &http2.Server{MaxConcurrentStreams: 1000}
-		srv.ServeConn(c, &http2.ServeConnOpts{Handler: h})
-	})
+		srv.ServeConn(&prefaceConn{Conn: c, bad: badPreface}, &http2.ServeConnOpts{Handler: h})
+	}), badPreface
 }
